@@ -58,20 +58,20 @@ def errJson : Err → Json
 
 /-- args: {"lb","ub","step": int|null, "nested": bool, "body": [tok], "tiles": [[arr, off]]}
  -> {"raised": cls} | {"declined": true} | {"pipelined": {...}} -/
-def runH : Handler := fun j => do
+def loopOfJson (j : Json) : Except String (Pipeline.Loop × List (Nat × Nat × Bool)) := do
   let lb ← optOf int (← field j "lb")
   let ub ← optOf int (← field j "ub")
   let st ← optOf int (← field j "step")
   let nested ← bool (← field j "nested")
   let body ← listOf tokOfJson (← field j "body")
-  let l : Pipeline.Loop := ⟨lb, ub, st, nested, body⟩
   let tiles ← listOf pairOfJson (← field j "tiles")
-  match run l with
-  | .error e => return errJson e
-  | .ok .declined => return Json.mkObj [("declined", Json.bool true)]
-  | .ok (.pipelined st trailing u) =>
+  return (⟨lb, ub, st, nested, body⟩, tiles)
+
+def outcomeJson (l : Pipeline.Loop) (tiles : List (Nat × Nat × Bool)) : Outcome → Json
+  | .declined => Json.mkObj [("declined", Json.bool true)]
+  | .pipelined st trailing u =>
     let p : Prog := ⟨tiles, st⟩
-    return Json.mkObj [("pipelined", Json.mkObj [
+    Json.mkObj [("pipelined", Json.mkObj [
       ("prologue", jList (jSlot tiles st) u.prologue),
       ("lb", jNat u.newLb),
       ("body", jSlot tiles st u.body),
@@ -84,6 +84,19 @@ def runH : Handler := fun j => do
                             | .ok (some q) => inputOK tiles q.stages && inputNoDup q.stages
                             | _ => false))])])]
 
+def runH : Handler := fun j => do
+  let (l, tiles) ← loopOfJson j
+  match run l with
+  | .error e => return errJson e
+  | .ok o => return outcomeJson l tiles o
+
+/-- args: {"loops": [loop]} -> {"raised": cls} | [outcome per loop] (the model's `runModule`) -/
+def runModuleH : Handler := fun j => do
+  let ls ← listOf loopOfJson (← field j "loops")
+  match runModule (ls.map (·.1)) with
+  | .error e => return errJson e
+  | .ok os => return Json.arr ((ls.zip os).map fun (lt, o) => outcomeJson lt.1 lt.2 o).toArray
+
 /-- args: {"S": n, "N": n} -> {"unrolled": [[[k, n]]], "slots": [[[k, n]]]} (evaluated slot structure) -/
 def slotsH : Handler := fun j => do
   let S ← nat (← field j "S")
@@ -92,6 +105,6 @@ def slotsH : Handler := fun j => do
   let pn := fun (p : Nat × Nat) => Json.arr #[jNat p.1, jNat p.2]
   return Json.mkObj [("unrolled", jList (jList pr) (evalUnroll S N)), ("slots", jList (jList pn) (slots S N))]
 
-def handlers : List (String × Handler) := [("c15.run", runH), ("c15.slots", slotsH)]
+def handlers : List (String × Handler) := [("c15.run", runH), ("c15.runModule", runModuleH), ("c15.slots", slotsH)]
 
 end SnaxVerif.Drv.C15
